@@ -38,23 +38,32 @@ def main():
     try:
         # place the demo
         placed = []
+        readme = os.path.join(src, "README.md")
+        rtxt = open(readme).read() if os.path.exists(readme) else ""
+        import re
+        demo_dir = "vgirpc"
+        m = re.search(r"demo-dir:\s*`?([A-Za-z0-9_./-]+)", rtxt)
+        if m:
+            demo_dir = m.group(1).strip("/`")
+        tags = ""
+        m = re.search(r"-tags[ =]+([A-Za-z0-9_,]+)", rtxt)
+        if m:
+            tags = " -tags " + m.group(1)
         for d in demos:
             if os.path.isdir(d):
-                dst = os.path.join(wt, "vgirpc", "zz_" + os.path.basename(d))
+                dst = os.path.join(wt, demo_dir, "zz_" + os.path.basename(d))
                 shutil.copytree(d, dst)
                 placed.append(dst)
             elif d.endswith("_test.go"):
-                dst = os.path.join(wt, "vgirpc", "zz_seed_" + os.path.basename(d))
+                dst = os.path.join(wt, demo_dir, "zz_seed_" + os.path.basename(d))
                 shutil.copy(d, dst)
                 placed.append(dst)
-        readme = os.path.join(src, "README.md")
         run_pat = "."
-        if os.path.exists(readme):
-            import re
-            m = re.search(r"-run[ =]+'?\"?([A-Za-z0-9_^$|]+)", open(readme).read())
-            if m:
-                run_pat = m.group(1)
+        m = re.search(r"-run[ =]+'?\"?([A-Za-z0-9_^$|]+)", rtxt)
+        if m:
+            run_pat = m.group(1)
         meta["demo_run_pattern"] = run_pat
+        meta["demo_dir"] = demo_dir
         if os.path.exists(readme):
             import re
             txt = open(readme).read()
@@ -64,7 +73,10 @@ def main():
             m = re.search(r"^#+[^\n]*(clause|property)[^\n]*\n(.*?)(?=^#+ |\Z)", txt, re.S | re.M | re.I)
             if m:
                 meta["clause_broken"] = " ".join(m.group(2).split())[:1000]
-        demo_cmd = "go test -count=1 -vet=off -run '%s' ./vgirpc/" % run_pat
+        if demo_dir == "vgirpc":
+            demo_cmd = "go test -count=1 -vet=off%s -run '%s' ./vgirpc/" % (tags, run_pat)
+        else:
+            demo_cmd = "cd %s && go test -count=1 -vet=off%s -run '%s' ." % (demo_dir, tags, run_pat)
         rc0, o0 = sh(demo_cmd, cwd=wt)
         meta["demo_without_change"] = "pass" if rc0 == 0 else "FAIL"
         meta["ran"].append(demo_cmd + " (unchanged tree) -> exit %d" % rc0)
